@@ -55,6 +55,11 @@ CLAIMED.update({
  'C15': dict(cat='model_checking', tech='same histories as C05; Mon_Hist keeps the specification\'s fixed map and compares each restricted enumeration with the two filters of the unrestricted one', ref='3 C15', note=HIST_NOTE,
              text='On the replayed Fix/Free histories TLC checks after every Enumerate that the restricted rows lie between {original rows with the fixed value} and {original rows with the fixed value or inactive} (column removed), that there are no duplicates, that n_valid(with_fixed) and the declared size describe that subset, that the listed variables are exactly the free ones, that valid fixes are accepted and out-of-range / connection-variable fixes rejected, that with nothing fixed the enumeration is the original one, and that decodes equal those of a fresh processor with the same fixed values (freeing restores exactly).'),
 })
+CLAIMED.update({
+ 'C13': dict(cat='model_checking', tech='ConsOK (DSGSem.tla) as the reference for admissible index combinations; bounded-exhaustive constraint family through Mon_Graph (all orders) and Mon_Proc (both encoders); Mon_Idx for the index-combination function', ref='3 C13',
+             note='indices are positions in the declared option list over the members active together; permutation / non-replacing constraints with fewer options than choices are infeasible by documentation and excluded; known findings attributed by clause + trigger',
+             text='Every description of the bounded family (constraint type x 2-3 choices x 2-4 options x five placements) is explored at graph level in all orders - TLC checks with ConsOK that exactly the documented index combinations remain reachable, that forced choices had no other viable option and that unsatisfiable branches become infeasible - and at processor level with both encoders over the whole declared space and the enumeration (missing / inadmissible / duplicated combinations). Linked design-variable nodes must carry the same option index or the same relative position within their bounds. get_valid_idx_combinations is compared row by row with ConOK on every small index matrix.'),
+})
 NA = {}
 
 def check_entry(pid):
